@@ -31,6 +31,239 @@ Definition miss := mkq (-1) 1.
 
 
 # ---------------------------------------------------------------------------------------
+# tie to the source: the formula/decision methods of pyhf/infer/calculators.py translated to coq/gen/AsymptGen.v on every run
+GEN_PARAMS = '(N : Num) (Phi : V N -> V N) (sqrt : V N -> V N)'
+GEN_ARGS = 'N Phi sqrt'
+GEN_HEADER = ('From Coq Require Import ZArith Bool List.\nRequire Import PV.Num PV.Asympt.\nImport ListNotations.\nLocal Open Scope list_scope.\n'
+              '(* GENERATED on every run by harness/props/c07.py:extract from $VERIF_REPO/src/pyhf/infer/calculators.py - do not edit.\n'
+              '   Phi is tensorlib.normal_cdf, sqrt is tensorlib.sqrt; a distribution object is a `dist` (shift, cutoff; cutoff None =\n'
+              '   float("-inf")); nan is None; self.test_stat / self.calc_base_dist are the enumerations tkind / basedist (the method is\n'
+              '   translated once per value); RuntimeError / ValueError are ENeedTeststat / EUnknownBase. *)\n')
+EXC_CON = {'RuntimeError': 'ENeedTeststat', 'ValueError': 'EUnknownBase'}
+OTHER_BASE = '\0any other string'
+ENVATTRS = ['data', 'pdf', 'init_pars', 'par_bounds', 'fixed_params']
+
+
+def coqty(ty):
+    from harness.props import tie_translate as tt
+    if ty == tt.NUM:
+        return 'V N'
+    if ty == tt.OPTNUM:
+        return 'option (V N)'
+    if ty == 'dist':
+        return 'dist N'
+    if isinstance(ty, tuple) and ty[0] == 'list':
+        return 'list (%s)' % coqty(ty[1])
+    if isinstance(ty, tuple) and ty[0] == 'prod':
+        return '(%s * %s)' % (coqty(ty[1]), coqty(ty[2]))
+    raise tt.TB('no Coq type for %r' % (ty,))
+
+
+def _tie_exec(dist_cls, calc_cls, selfattrs, facts_out):
+    from harness import facts
+    from harness.props import tie_translate as tt
+    dist_init = facts.find_func(dist_cls, '__init__')
+    OPT3 = tt.PROD(tt.OPTNUM, tt.OPTNUM, tt.OPTNUM)
+
+    class X(tt.Exec):
+        def global_name(self, name, st):
+            if name in ('get_backend', 'float', 'utils', 'generate_asimov_data', 'HypoTestFitResults'):
+                return tt.Ext(name)
+            if name == dist_cls.name:
+                return tt.Ext('ctor:dist')
+            raise tt.TB('unknown name %s' % name)
+
+        def self_attr(self, attr, node, st):
+            if attr in selfattrs:
+                return selfattrs[attr]
+            if attr in ENVATTRS:
+                return tt.Ext('self.' + attr)
+            if attr == 'pvalues':
+                return tt.Ext('selfmethod', attr)
+            raise tt.TB('self.%s (line %d)' % (attr, node.lineno))
+
+        def attr_ext(self, base, attr, node, st):
+            if isinstance(base, tt.Ext) and base.tag == 'tensorlib':
+                return tt.Ext('tensorlib.' + attr)
+            if isinstance(base, tt.Ext) and base.tag == 'utils' and attr == 'get_test_stat':
+                return tt.Ext('utils.get_test_stat')
+            if isinstance(base, tt.T) and base.ty == 'dist' and attr in ('pvalue', 'expected_value', 'cdf'):
+                return tt.Ext('distmethod', (base.s, attr))
+            raise tt.TB('attribute .%s of %r (line %d)' % (attr, base, node.lineno))
+
+        def env_forwarded(self, vals, what, node):
+            if [getattr(v, 'tag', None) for v in vals] != ['self.' + a for a in ENVATTRS[1:]]:
+                raise tt.TB('%s (line %d): (pdf, init_pars, par_bounds, fixed_params) of the calculator are not forwarded in order' % (what, node.lineno))
+
+        def call_ext(self, f, args, kwargs, node, st):
+            tag = f.tag
+            if tag in ('tensorlib.normal_cdf', 'tensorlib.sqrt') and len(args) == 1 and not kwargs:
+                return tt.T('(%s %s)' % ('Phi' if tag.endswith('cdf') else 'sqrt', self.num(args[0], node)), tt.NUM)
+            if tag == 'ctor:dist':
+                bound, params, extra = tt.bind_call(dist_init, args, kwargs, skip_self=True, what='constructor of the distribution')
+                cut = bound.get('cutoff', tt.S(float('-inf')))
+                if set(bound) - {'shift', 'cutoff'} or 'shift' not in bound:
+                    raise tt.TB('constructor of the distribution (line %d): arguments' % node.lineno)
+                if isinstance(cut, tt.S) and cut.v == float('-inf'):
+                    cs = 'None'
+                else:
+                    cs = '(Some %s)' % self.num(cut, node)
+                return tt.T('(mkDist %s %s)' % (self.num(bound['shift'], node), cs), 'dist')
+            if tag == 'distmethod' and len(args) == 1 and not kwargs:
+                d, m = f.data
+                return tt.T('(gen_%s %s %s %s)' % (m, GEN_ARGS, d, self.num(args[0], node)), tt.OPTNUM if m == 'pvalue' else tt.NUM)
+            if tag == 'selfmethod' and f.data == 'pvalues':
+                bound, params, extra = tt.bind_call(facts.find_func(calc_cls, 'pvalues'), args, kwargs, skip_self=True, what='self.pvalues')
+                if len(bound) != 3 or [getattr(bound[p], 'ty', None) for p in params] != [tt.NUM, 'dist', 'dist']:
+                    raise tt.TB('self.pvalues (line %d): arguments' % node.lineno)
+                return tt.T('(gen_pvalues %s %s)' % (GEN_ARGS, ' '.join(bound[p].s for p in params)), OPT3)
+            if tag == 'utils.get_test_stat' and len(args) == 1 and not kwargs and args[0] is selfattrs.get('test_stat'):
+                return tt.Ext('teststat_func')
+            if tag == 'teststat_func':
+                if (len(args) != 6 or list(kwargs) != ['return_fitted_pars'] or not (isinstance(kwargs['return_fitted_pars'], tt.S) and kwargs['return_fitted_pars'].v is True)
+                        or getattr(args[0], 'tag', None) != 'poi_test'):
+                    raise tt.TB('call of the test-statistic function (line %d): arguments' % node.lineno)
+                self.env_forwarded(args[2:], 'call of the test-statistic function', node)
+                which = {'self.data': 'qmu_v', 'asimov_data': 'qmuA_v'}.get(getattr(args[1], 'tag', None))
+                if which is None:
+                    raise tt.TB('call of the test-statistic function (line %d): data is neither self.data nor the Asimov data' % node.lineno)
+                return tt.Tup([tt.T(which, tt.NUM), tt.Tup([tt.Ext('fitted'), tt.Ext('fitted')])])
+            if tag == 'generate_asimov_data':
+                if (len(args) != 6 or list(kwargs) != ['return_fitted_pars'] or not (isinstance(kwargs['return_fitted_pars'], tt.S) and kwargs['return_fitted_pars'].v is True)
+                        or getattr(args[1], 'tag', None) != 'self.data' or not tt.is_static_num(args[0])):
+                    raise tt.TB('call of generate_asimov_data (line %d): arguments' % node.lineno)
+                self.env_forwarded(args[2:], 'call of generate_asimov_data', node)
+                facts_out['asimov_mu'] = args[0].v
+                return tt.Tup([tt.Ext('asimov_data'), tt.Ext('fitted')])
+            if tag == 'HypoTestFitResults' and not args and all(getattr(v, 'tag', None) == 'fitted' for v in kwargs.values()):
+                return tt.Ext('fitresults')
+            raise tt.TB('call of %r (line %d)' % (f, node.lineno))
+    return X()
+
+
+def generate():
+    """returns (Coq text of gen/AsymptGen.v, info).  Raises facts.TieBroken."""
+    import ast
+    from harness import facts
+    from harness.props import tie_translate as tt
+    rel = 'infer/calculators.py'
+    tree, path = facts.parse(rel)
+    dist_cls = facts.find_class(tree, 'AsymptoticTestStatDistribution')
+    calc_cls = facts.find_class(tree, 'AsymptoticCalculator')
+    dinit = tt.check_init_stores(dist_cls, ['shift', 'cutoff'])
+    dd = tt.defaults_of(dinit)
+    if list(dd) != ['cutoff'] or tt.dump(dd['cutoff']) != tt.pattern('float("-inf")'):
+        raise tt.TB('AsymptoticTestStatDistribution.__init__: the default of cutoff is not float("-inf")')
+    cinit = tt.check_init_stores(calc_cls, ['test_stat', 'calc_base_dist'])
+    inits = [n for n in ast.walk(cinit) if isinstance(n, ast.Assign) and any(isinstance(t, ast.Attribute) and isinstance(t.value, ast.Name) and t.value.id == 'self' and t.attr == 'sqrtqmuA_v' for t in n.targets)]
+    if len(inits) != 1 or not (isinstance(inits[0].value, ast.Constant) and inits[0].value.value is None):
+        raise tt.TB('AsymptoticCalculator.__init__ does not initialise self.sqrtqmuA_v to None exactly once')
+    text = GEN_HEADER
+    info = {}
+    NUM, OPTNUM = tt.NUM, tt.OPTNUM
+
+    def method(cls, name, params):
+        fn = facts.find_func(cls, name)
+        if [a.arg for a in fn.args.args] != ['self'] + params or fn.args.vararg or fn.args.kwarg or fn.args.kwonlyargs or fn.args.defaults:
+            raise tt.TB('%s.%s: parameters are not (self, %s)' % (cls.name, name, ', '.join(params)))
+        return fn
+
+    def emit(fn, gname, params, rty, body):
+        nonlocal text
+        text += '\n' + tt.source_comment(rel, fn, path)
+        text += 'Definition %s %s %s : %s :=\n  %s.\n' % (gname, GEN_PARAMS, params, rty, body)
+        info[gname] = len(body)
+
+    # ---- AsymptoticTestStatDistribution: one translation per kind of cutoff (float("-inf") / a number)
+    for name, pname, rty in (('cdf', 'value', NUM), ('pvalue', 'value', OPTNUM), ('expected_value', 'nsigma', NUM)):
+        fn = method(dist_cls, name, [pname])
+        alts = []
+        for cut in (tt.S(float('-inf')), tt.T('c', NUM)):
+            x = _tie_exec(dist_cls, calc_cls, {'shift': tt.T('(shift d)', NUM), 'cutoff': cut}, {})
+            o = tt.only_ret(x.block(fn.body, tt.St(env={pname: tt.T(pname, NUM)})), name)
+            if o.st.warns or o.st.attrs:
+                raise tt.TB('%s has side effects' % name)
+            alts.append(x.optnum(o.val) if rty == OPTNUM else x.num(o.val))
+        emit(fn, 'gen_' + name, '(d : dist N) (%s : V N)' % pname, coqty(rty),
+             '(match cutoff d with None => %s | Some c => %s end)' % tuple(alts))
+
+    # ---- AsymptoticCalculator.distributions: one translation per base distribution
+    fn = method(calc_cls, 'distributions', ['poi_test'])
+    alts = []
+    for base in ('normal', 'clipped_normal', OTHER_BASE):
+        attrs = {'calc_base_dist': tt.S(base), 'sqrtqmuA_v': tt.T('sqrtqmuA_v', tt.OPTION(NUM), key=('attr', 'sqrtqmuA_v'))}
+        x = _tie_exec(dist_cls, calc_cls, attrs, {})
+        o = x.block(fn.body, tt.St(env={'poi_test': tt.Ext('poi_test')}))
+
+        def leaf(l):
+            if isinstance(l, tt.Exc):
+                if l.name not in EXC_CON:
+                    raise tt.TB('distributions raises %s' % l.name)
+                return '(inl %s)' % EXC_CON[l.name]
+            if isinstance(l, tt.Ret) and isinstance(l.val, tt.Tup) and [getattr(v, 'ty', None) for v in l.val.items] == ['dist', 'dist']:
+                if l.st.warns or [k for k in l.st.attrs if k != 'sqrtqmuA_v']:
+                    raise tt.TB('distributions has side effects')
+                return '(inr (%s, %s))' % (l.val.items[0].s, l.val.items[1].s)
+            raise tt.TB('distributions does not return two distributions')
+        alts.append(tt.render(o, leaf))
+    emit(fn, 'gen_distributions', '(sqrtqmuA_v : option (V N)) (b : basedist)', 'cerr + (dist N * dist N)',
+         '(match b with BNormal => %s | BClipped => %s | BOther => %s end)' % tuple(alts))
+
+    # ---- AsymptoticCalculator.teststatistic: the arithmetic after the fits, one translation per test statistic
+    fn = method(calc_cls, 'teststatistic', ['poi_test'])
+    alts, amu = [], []
+    for k in KINDS:
+        fx = {}
+        x = _tie_exec(dist_cls, calc_cls, {'test_stat': tt.S(k)}, fx)
+        o = tt.only_ret(x.block(fn.body, tt.St(env={'poi_test': tt.Ext('poi_test')})), 'teststatistic')
+        if o.st.warns or sorted(o.st.attrs) != ['fitted_pars', 'sqrtqmuA_v']:
+            raise tt.TB('teststatistic: attributes assigned are %r, expected sqrtqmuA_v and fitted_pars' % sorted(o.st.attrs))
+        alts.append('(%s, %s)' % (x.num(o.val), x.num(o.st.attrs['sqrtqmuA_v'])))
+        if 'asimov_mu' not in fx:
+            raise tt.TB('teststatistic does not call generate_asimov_data')
+        amu.append(tt.numlit(fx['asimov_mu']))
+    emit(fn, 'gen_teststatistic', '(k : tkind) (qmu_v qmuA_v : V N)', '(V N * V N)',
+         '(match k with KQ => %s | KQtilde => %s | KQ0 => %s end)' % tuple(alts))
+    text += '(* the POI value at which the Asimov data are generated (first argument of generate_asimov_data) *)\n'
+    text += 'Definition gen_asimov_mu %s (k : tkind) : V N :=\n  (match k with KQ => %s | KQtilde => %s | KQ0 => %s end).\n' % ((GEN_PARAMS,) + tuple(amu))
+    info['gen_asimov_mu'] = amu
+    # the two local functions of the qtilde branch
+    for lname in ('_true_case', '_false_case'):
+        locs = [n for n in ast.walk(fn) if isinstance(n, ast.FunctionDef) and n.name == lname]
+        if len(locs) != 1:
+            raise tt.TB('teststatistic: local function %s not found exactly once' % lname)
+        x = _tie_exec(dist_cls, calc_cls, {'sqrtqmuA_v': tt.T('sA', NUM)}, {})
+        o = tt.only_ret(x.block([locs[0]] + [ast.Return(value=ast.Call(func=ast.Name(id=lname, ctx=ast.Load()), args=[], keywords=[], lineno=locs[0].lineno),
+                                                        lineno=locs[0].lineno)],
+                                tt.St(env={'sqrtqmu_v': tt.T('s', NUM), 'tensorlib': tt.Ext('tensorlib')})), lname)
+        emit(locs[0], 'gen' + lname, '(s sA : V N)', 'V N', x.num(o.val))
+
+    # ---- pvalues / expected_pvalues
+    fn = method(calc_cls, 'pvalues', ['teststat', 'sig_plus_bkg_distribution', 'bkg_only_distribution'])
+    x = _tie_exec(dist_cls, calc_cls, {}, {})
+    env = {'teststat': tt.T('teststat', NUM), 'sig_plus_bkg_distribution': tt.T('sb', 'dist'), 'bkg_only_distribution': tt.T('b', 'dist')}
+    o = tt.only_ret(x.block(fn.body, tt.St(env=env)), 'pvalues')
+    if o.st.warns or o.st.attrs or not (isinstance(o.val, tt.Tup) and len(o.val.items) == 3):
+        raise tt.TB('pvalues does not return a triple without side effects')
+    emit(fn, 'gen_pvalues', '(teststat : V N) (sb b : dist N)', '(option (V N) * option (V N) * option (V N))',
+         '(%s, %s, %s)' % tuple(x.optnum(v) for v in o.val.items))
+    fn = method(calc_cls, 'expected_pvalues', ['sig_plus_bkg_distribution', 'bkg_only_distribution'])
+    x = _tie_exec(dist_cls, calc_cls, {}, {})
+    env = {'sig_plus_bkg_distribution': tt.T('sb', 'dist'), 'bkg_only_distribution': tt.T('b', 'dist')}
+    o = tt.only_ret(x.block(fn.body, tt.St(env=env)), 'expected_pvalues')
+    if o.st.warns or o.st.attrs or not (isinstance(o.val, tt.T) and o.val.ty == tt.LIST(tt.LIST(OPTNUM))):
+        raise tt.TB('expected_pvalues does not return the three bands')
+    emit(fn, 'gen_expected_pvalues', '(sb b : dist N)', 'list (list (option (V N)))', o.val.s)
+    return text, info
+
+
+def extract(ctx):
+    text, info = generate()
+    core.write_if_changed(os.path.join(core.COQ, 'gen', 'AsymptGen.v'), text)
+    return dict(file='coq/gen/AsymptGen.v', definitions=sorted(info))
+
+
+# ---------------------------------------------------------------------------------------
 # implementation driver
 def fl(tb, x):
     v = tb.tolist(x) if not isinstance(x, (int, float)) else x
